@@ -9,7 +9,7 @@ git apply $P || { echo "patch does not apply"; exit 2; }
 cleanup() {
   git -C /repo checkout -- .
   git -C /verif checkout -- evidence 2>/dev/null
-  (cd /verif && python3 -c 'import sys; sys.path.insert(0, "tools"); from lanes import build_lane; import os; [build_lane(l) for l in dict.fromkeys(["rel", "dbg"] + ([os.environ["LANE"]] if os.environ.get("LANE") in ("op", "alt", "asan") else []))]')
+  [ -n "${NOREBUILD:-}" ] || (cd /verif && python3 -c 'import sys; sys.path.insert(0, "tools"); from lanes import build_lane; import os; [build_lane(l) for l in dict.fromkeys(["rel", "dbg"] + ([os.environ["LANE"]] if os.environ.get("LANE") in ("op", "alt", "asan") else []))]')
 }
 trap cleanup EXIT
 cd /verif
